@@ -170,6 +170,15 @@ func init() {
 				os.WriteFile(bf, []byte(balJ), 0o644)
 				files := runCli(bin, "", append([]string{"run", script, "-v", vf, "-m", mf, "-b", bf}, flagArgs...)...)
 				chans = append(chans, fmt.Sprintf("(%s, %s)", coqStr("files"), coqCliObs(files, ro)))
+				// mixed channels: the script through one channel, variables / balances / metadata through another
+				scriptOnly := fmt.Sprintf(`{"script":%s}`, scriptJ)
+				rawFiles := runCli(bin, "", append([]string{"run", "--raw", scriptOnly, "-v", vf, "-m", mf, "-b", bf}, flagArgs...)...)
+				chans = append(chans, fmt.Sprintf("(%s, %s)", coqStr("raw+files"), coqCliObs(rawFiles, ro)))
+				stdinFiles := runCli(bin, scriptOnly, append([]string{"run", "--stdin", "-v", vf, "-m", mf, "-b", bf}, flagArgs...)...)
+				chans = append(chans, fmt.Sprintf("(%s, %s)", coqStr("stdin+files"), coqCliObs(stdinFiles, ro)))
+				rest := fmt.Sprintf(`{"variables":%s,"metadata":%s,"balances":%s}`, varsJ, metaJ, balJ)
+				fileRaw := runCli(bin, "", append([]string{"run", script, "--raw", rest}, flagArgs...)...)
+				chans = append(chans, fmt.Sprintf("(%s, %s)", coqStr("file+raw"), coqCliObs(fileRaw, ro)))
 			}
 			ci := sc.info("c20case")
 			ci.Class = ro.Class
